@@ -53,18 +53,21 @@ func ReaderParamEncoder(addr string) jsonrpc.Option {
 type waitReadCloser struct {
 	io.ReadCloser
 	wait chan struct{}
+
+	// wait is closed once: reads keep failing after EOF, and Close may follow
+	closeWait sync.Once
 }
 
 func (w *waitReadCloser) Read(p []byte) (int, error) {
 	n, err := w.ReadCloser.Read(p)
 	if err != nil {
-		close(w.wait)
+		w.closeWait.Do(func() { close(w.wait) })
 	}
 	return n, err
 }
 
 func (w *waitReadCloser) Close() error {
-	close(w.wait)
+	w.closeWait.Do(func() { close(w.wait) })
 	return w.ReadCloser.Close()
 }
 
